@@ -746,6 +746,10 @@ func ReplayMain(path, self string) int {
 		}
 		if hit {
 			bad++
+			if bad == 1 && c.Witness != nil && os.Getenv("VERIF_REPLAY_WITNESS") != "" {
+				b, _ := json.MarshalIndent(c.Witness, "", " ")
+				fmt.Println(string(b))
+			}
 		}
 	}
 	fmt.Printf("re-executed case %d %d times: %d executions show the recorded violation\n", r.Idx, n, bad)
